@@ -213,3 +213,45 @@ func init() {
 	intrinsics["internal/stringslite.TrimSuffix"] = func(fr *frame, args []value) value { return symTrimSuffix(fr, args) }
 	_ = strings.Builder{}
 }
+
+func init() {
+	// sort.Slice / SliceStable: insertion sort driven by the target's less closure
+	sortSlice := func(fr *frame, args []value) value {
+		sl, ok := args[0].(iface).v.([]value)
+		if !ok {
+			fr.ex().unsupported("sort.Slice on a non-slice")
+		}
+		less := args[1]
+		// sort a permutation of copies, calling less on the *current* slice contents
+		for i := 1; i < len(sl); i++ {
+			for j := i; j > 0; j-- {
+				r := call(fr.i, fr, 0, less, []value{j, j - 1})
+				var lt bool
+				switch b := r.(type) {
+				case bool:
+					lt = b
+				case *Term:
+					lt = fr.ex().branch(b)
+				}
+				if !lt {
+					break
+				}
+				if fr.i.conc != nil {
+					fr.i.logAccess(&sl[j], true, fr.caller)
+					fr.i.logAccess(&sl[j-1], true, fr.caller)
+				}
+				sl[j], sl[j-1] = sl[j-1], sl[j]
+			}
+		}
+		return nil
+	}
+	intrinsics["sort.Slice"] = sortSlice
+	intrinsics["sort.SliceStable"] = sortSlice
+	// time: a fixed instant (the clock is not part of any property here)
+	intrinsics["time.Now"] = func(fr *frame, args []value) value {
+		return zero(fr.fn.Signature.Results().At(0).Type())
+	}
+	intrinsics["time.Since"] = func(fr *frame, args []value) value { return int64(0) }
+	intrinsics["time.Sleep"] = func(fr *frame, args []value) value { return nil }
+	intrinsics["runtime.Gosched"] = func(fr *frame, args []value) value { return nil }
+}
